@@ -347,5 +347,5 @@ func TestPageRank(t *testing.T) {
 		}
 	}
 	vk.Enumerate(t, "pagerank-exh-zero-weights", len(zc), func(i int) prCase { return zc[i] }, checkPageRank)
-	vk.Run(t, "pagerank", vk.Opts{Quick: 8000, Thorough: 180000}, drawPR, checkPageRank)
+	vk.Run(t, "pagerank", vk.Opts{Quick: 8000, Thorough: 120000}, drawPR, checkPageRank)
 }
